@@ -198,6 +198,10 @@ def pkg_eval(job: dict) -> dict:
                 f.write(content)
         sys.path.insert(0, base)
         sys.dont_write_bytecode = True
+        mods = [pkg] + [n[:-3] for n in (job.get("extra") or {}) if n.endswith(".py")]
+        for k in [k for k in sys.modules if any(k == m or k.startswith(m + ".") for m in mods)]:
+            del sys.modules[k]
+        importlib_invalidate()
         ns: Dict[str, Any] = {}
         exec(compile(job["code"], "<pkg_eval>", "exec"), ns)
         import warnings
@@ -211,8 +215,22 @@ def pkg_eval(job: dict) -> dict:
         res["exc_msg"] = str(e)[:2000]
         res["tb"] = "".join(traceback.format_exception(type(e), e, e.__traceback__)[-5:])[-3000:]
     finally:
+        if base in sys.path:
+            sys.path.remove(base)
+        try:
+            mods = [job.get("pkg", "gcl")] + [n[:-3] for n in (job.get("extra") or {}) if n.endswith(".py")]
+            for k in [k for k in sys.modules if any(k == m or k.startswith(m + ".") for m in mods)]:
+                del sys.modules[k]
+        except Exception:  # noqa: BLE001
+            pass
         shutil.rmtree(base, ignore_errors=True)
     return res
+
+
+def importlib_invalidate():
+    import importlib
+
+    importlib.invalidate_caches()
 
 
 IMPORT_CODE = r'''
